@@ -186,8 +186,11 @@ def check(sc, r):
     if first is None:
         out.append(C.v("answer", "C13/no-answer/%s" % ("accept" if accept else "reject"), "no A-ASSOCIATE-AC/RJ/A-ABORT written (policy fails: %s)" % which))
         return out
+    early_data = sc["pipeline"] in ("same_segment", "before_answer", "all")
     if accept:
-        if first["type"] != 2:
+        if first["type"] == 7 and early_data:
+            pass   # P-DATA before the association is established is a protocol error of the peer: the provider may abort (AA-8)
+        elif first["type"] != 2:
             got = W.parse_rj(first["payload"]) if first["type"] == 3 else "abort"
             out.append(C.v("over-reject", "C13/rejected-although-allowed/%s" % (got if isinstance(got, str) else "%(result)d%(source)d%(reason)d" % got),
                            "policy allows the association but the acceptor answered %s (calling %r called %r own %r how %s, identity %s/%s)" % (got, sc["calling"], sc["called"], sc["own"] + sc["own_pad"], sc["how"], sc["identity"], sc["handler"])))
